@@ -25,6 +25,16 @@ MoveH(g, p, dx, dy) ==
        hold == ~active1 \/ ~AtSea(g, cx, cy)
    IN [p EXCEPT !.x = IF hold THEN p.x ELSE cx, !.y = IF hold THEN p.y ELSE cy, !.alive = alive1, !.active = active1]
 
+\* random walk (C11): one fresh standard-normal draw xi (in quarters) per particle x direction x step; the displacement is
+\* sigma xi dt / dx with sigma dt = sqrt(2 D dt) = s16 / 16 m, i.e. in 1/256 cell:  (s16 xi 4) / dx ; in depth (1/16 m): (sz16 xi) / 4.
+\* The draws of one step arrive as one vector: the first block of n for one horizontal direction, the second for the other
+\* (either assignment a = 1, 2 is accepted - the blocks are identically distributed), then n for the depth.
+WalkH(s16, xi, d) == (s16 * xi * 4) \div d
+WalkV(sz16, xi) == (sz16 * xi) \div 4
+DrawU(draws, n, a, i) == IF a = 1 THEN draws[i] ELSE draws[n + i]
+DrawV(draws, n, a, i) == IF a = 1 THEN draws[n + i] ELSE draws[i]
+DrawW(draws, nh, i) == draws[nh + i]
+
 \* vertical part: displacement dz (1/QZ m), reflecting surface and bottom of the cell occupied when the step began
 Reflect(z, dz, h) == LET z1 == z + dz
                          z2 == IF z1 < 0 THEN 0 - z1 ELSE z1
